@@ -68,10 +68,17 @@ func snapCtx(ctx any, w *world, i int) string {
 	return snapFields(f.(errdef.Definition).Fields())
 }
 
-func (w *world) snapErr(e error) string {
+func (w *world) snapErr(e error) (out string) {
 	if e == nil {
 		return "nil"
 	}
+	// an error value whose own Error method panics (a typed nil receiver handed to panic())
+	// makes renderers panic; that is the value's doing - snapshot it as such
+	defer func() {
+		if p := recover(); p != nil {
+			out = fmt.Sprintf("<rendering panicked: %v>", p)
+		}
+	}()
 	var b strings.Builder
 	fmt.Fprintf(&b, "%T msg=%q", e, e.Error())
 	if de, ok := e.(errdef.Error); ok {
